@@ -1,4 +1,8 @@
 //@file kiki/src/data/table.rs mod=crate::data::table
+//@[ imports
+use vstd::prelude::*;
+use vstd::std_specs::cmp::*;
+//@]
 use crate::data::*;
 
 #[derive(Debug, Clone, PartialEq, Eq)]
@@ -32,15 +36,111 @@ pub enum Quasiterminal<'a> {
     Eof,
 }
 
+//@[ C07 C17 ghost vocabulary: shape of the table and positions of its cells
+impl PartialEqSpecImpl for Action {
+    open spec fn obeys_eq_spec() -> bool { true }
+    open spec fn eq_spec(&self, other: &Action) -> bool { *self == *other }
+}
+
+/// first index >= i of terminal t in ts
+pub open spec fn term_index(ts: Seq<DollarlessTerminalName>, t: DollarlessTerminalName, i: int) -> Option<int>
+    decreases ts.len() - i
+{
+    if i < 0 || i >= ts.len() { None } else if ts[i] == t { Some(i) } else { term_index(ts, t, i + 1) }
+}
+
+/// first index >= i of the nonterminal called n in ns
+pub open spec fn nt_index(ns: Seq<Seq<char>>, n: Seq<char>, i: int) -> Option<int>
+    decreases ns.len() - i
+{
+    if i < 0 || i >= ns.len() { None } else if ns[i] == n { Some(i) } else { nt_index(ns, n, i + 1) }
+}
+
+/// the names of a list of strings
+pub open spec fn names_view(ns: Seq<String>) -> Seq<Seq<char>> { ns.map_values(|s: String| s@) }
+
+/// column of a quasi-terminal: its index among the terminals, or the extra last column for end of input
+pub open spec fn qcol(ts: Seq<DollarlessTerminalName>, q: Quasiterminal) -> Option<int> {
+    match q { Quasiterminal::Terminal(t) => term_index(ts, *t, 0), Quasiterminal::Eof => Some(ts.len() as int) }
+}
+
+pub proof fn lemma_term_index_bounds(ts: Seq<DollarlessTerminalName>, t: DollarlessTerminalName, i: int)
+    requires 0 <= i
+    ensures term_index(ts, t, i) matches Some(k) ==> i <= k < ts.len() && ts[k] == t
+    decreases ts.len() - i
+{
+    if i < ts.len() && ts[i] != t { lemma_term_index_bounds(ts, t, i + 1); }
+}
+
+pub proof fn lemma_nt_index_bounds(ns: Seq<Seq<char>>, n: Seq<char>, i: int)
+    requires 0 <= i
+    ensures nt_index(ns, n, i) matches Some(k) ==> i <= k < ns.len() && ns[k] == n
+    decreases ns.len() - i
+{
+    if i < ns.len() && ns[i] != n { lemma_nt_index_bounds(ns, n, i + 1); }
+}
+
 impl Table {
-    pub fn state_count(&self) -> usize {
+    pub open spec fn ncols(&self) -> int { self.terminals@.len() as int + 1 }
+    pub open spec fn nstates(&self) -> int { self.actions@.len() as int / (self.terminals@.len() as int + 1) }
+    /// rectangular: |actions| = states x (terminals + 1), |gotos| = states x nonterminals
+    pub open spec fn wf(&self) -> bool {
+        &&& self.terminals@.len() + 1 <= usize::MAX
+        &&& self.actions@.len() == self.nstates() * self.ncols()
+        &&& self.gotos@.len() == self.nstates() * self.nonterminals@.len()
+    }
+    pub open spec fn action_pos(&self, s: StateIndex, q: Quasiterminal) -> int { s.0 * self.ncols() + qcol(self.terminals@, q)->Some_0 }
+    pub open spec fn goto_pos(&self, s: StateIndex, n: Seq<char>) -> int { s.0 * self.nonterminals@.len() + nt_index(names_view(self.nonterminals@), n, 0)->Some_0 }
+
+    // T13: the two `position` searches, outlined verbatim (bodies not verified; contracts assumed)
+    #[verifier::external_body]
+    fn __vx_terminal_position(&self, terminal: &DollarlessTerminalName) -> (r: Option<usize>)
+        ensures (match r { Some(i) => Some(i as int), None => None }) == term_index(self.terminals@, *terminal, 0)
+    { /*@orig T13_terminal_position*/ }
+
+    #[verifier::external_body]
+    fn __vx_nonterminal_position(&self, nonterminal: &str) -> (r: Option<usize>)
+        ensures (match r { Some(i) => Some(i as int), None => None }) == nt_index(names_view(self.nonterminals@), nonterminal@, 0)
+    { /*@orig T13_nonterminal_position*/ }
+}
+
+pub proof fn lemma_cell_in_range(s: int, n: int, c: int, q: int)
+    requires 0 <= s < n, 0 <= q < c
+    ensures 0 <= s * c + q < n * c, s * c + q <= (n - 1) * c + q
+{
+    assert(s * c + q < n * c) by (nonlinear_arith) requires 0 <= s < n, 0 <= q < c;
+    assert(0 <= s * c) by (nonlinear_arith) requires 0 <= s, 0 <= c;
+    assert(s * c <= (n - 1) * c) by (nonlinear_arith) requires 0 <= s <= n - 1, 0 <= c;
+}
+
+/// distinct (state, column) pairs address distinct cells
+pub proof fn lemma_cell_injective(s1: int, q1: int, s2: int, q2: int, c: int)
+    requires 0 <= q1 < c, 0 <= q2 < c, 0 <= s1, 0 <= s2, s1 * c + q1 == s2 * c + q2
+    ensures s1 == s2, q1 == q2
+{
+    assert(s1 == s2) by (nonlinear_arith) requires 0 <= q1 < c, 0 <= q2 < c, 0 <= s1, 0 <= s2, s1 * c + q1 == s2 * c + q2;
+}
+//@]
+
+impl Table {
+    pub fn state_count(&self) -> /*@[*/(r: /*@]*/usize/*@[*/)/*@]*/
+        //@[ C07 Table::state_count
+        requires self.terminals@.len() + 1 <= usize::MAX,
+        ensures r == self.nstates(),
+        //@]
+    {
         self.actions.len() / (self.terminals.len() + 1)
     }
 
     /// ## Panics
     /// 1. Panics if the terminal is not in the table.
     /// 2. Panics if the state is too large.
-    pub fn action(&self, state_index: StateIndex, terminal: Quasiterminal) -> Action {
+    pub fn action(&self, state_index: StateIndex, terminal: Quasiterminal) -> /*@[*/(r: /*@]*/Action/*@[*/)/*@]*/
+        //@[ C07 C17 Table::action
+        requires self.wf(), state_index.0 < self.nstates(), qcol(self.terminals@, terminal) is Some,
+        ensures r == self.actions@[self.action_pos(state_index, terminal)],
+        //@]
+    {
         let i = self.action_index(state_index, terminal);
         self.actions[i]
     }
@@ -48,7 +148,16 @@ impl Table {
     /// ## Panics
     /// 1. Panics if the terminal is not in the table.
     /// 2. Panics if the state is too large.
-    pub fn set_action(&mut self, state_index: StateIndex, terminal: Quasiterminal, val: Action) {
+    pub fn set_action(&mut self, state_index: StateIndex, terminal: Quasiterminal, val: Action)
+        //@[ C07 C17 Table::set_action: exactly one cell changes
+        requires old(self).wf(), state_index.0 < old(self).nstates(), qcol(old(self).terminals@, terminal) is Some,
+        ensures
+            final(self).actions@ == old(self).actions@.update(old(self).action_pos(state_index, terminal), val),
+            0 <= old(self).action_pos(state_index, terminal) < old(self).actions@.len(),
+            final(self).start == old(self).start, final(self).terminals == old(self).terminals,
+            final(self).nonterminals == old(self).nonterminals, final(self).gotos == old(self).gotos,
+        //@]
+    {
         let i = self.action_index(state_index, terminal);
         self.actions[i] = val;
     }
@@ -56,22 +165,30 @@ impl Table {
     /// ## Panics
     /// 1. Panics if the terminal is not in the table.
     /// 2. Panics if the state is too large.
-    //@[ T: uses Iterator::position (outside the supported subset)
-    #[verifier::external_body]
-    //@]
     fn action_index(
         &self,
         /*@{ T11_action_index*//*@- StateIndex(state_index): StateIndex *//*@|*/__vx_p0: StateIndex/*@}*/,
         quasiterminal: Quasiterminal,
-    ) -> usize {
+    ) -> /*@[*/(r: /*@]*/usize/*@[*/)/*@]*/
+        //@[ C07 C17 Table::action_index: row-major cell position; the terminal is known and the state in range (no panic, no overflow)
+        requires self.wf(), __vx_p0.0 < self.nstates(), qcol(self.terminals@, quasiterminal) is Some,
+        ensures r == self.action_pos(__vx_p0, quasiterminal), r < self.actions@.len(),
+        //@]
+    {
         //@[ T11
         let StateIndex(state_index) = __vx_p0;
+        proof {
+            if let Quasiterminal::Terminal(t) = quasiterminal { lemma_term_index_bounds(self.terminals@, *t, 0); }
+            lemma_cell_in_range(state_index as int, self.nstates(), self.ncols(), qcol(self.terminals@, quasiterminal)->Some_0);
+            vstd::std_specs::vec::axiom_spec_len(&self.actions);
+            assert(0 <= state_index * self.ncols()) by (nonlinear_arith) requires state_index >= 0, self.ncols() >= 0;
+        }
         //@]
         let quasiterminal_index = match quasiterminal {
-            Quasiterminal::Terminal(terminal) => self
+            Quasiterminal::Terminal(terminal) => /*@{ T13_terminal_position*//*@- self
                 .terminals
                 .iter()
-                .position(|t| t == terminal)
+                .position(|t| t == terminal) *//*@|*/self.__vx_terminal_position(terminal)/*@}*/
                 .expect("Terminal not found in table"),
             Quasiterminal::Eof => self.terminals.len(),
         };
@@ -87,7 +204,12 @@ impl Table {
     /// ## Panics
     /// 1. Panics if the nonterminal is not in the table.
     /// 2. Panics if the state is too large.
-    pub fn goto(&self, state_index: StateIndex, nonterminal: &str) -> Goto {
+    pub fn goto(&self, state_index: StateIndex, nonterminal: &str) -> /*@[*/(r: /*@]*/Goto/*@[*/)/*@]*/
+        //@[ C07 C17 Table::goto
+        requires self.wf(), state_index.0 < self.nstates(), nt_index(names_view(self.nonterminals@), nonterminal@, 0) is Some,
+        ensures r == self.gotos@[self.goto_pos(state_index, nonterminal@)],
+        //@]
+    {
         let i = self.goto_index(state_index, nonterminal);
         self.gotos[i]
     }
@@ -95,7 +217,16 @@ impl Table {
     /// ## Panics
     /// 1. Panics if the nonterminal is not in the table.
     /// 2. Panics if the state is too large.
-    pub fn set_goto(&mut self, state_index: StateIndex, nonterminal: &str, val: Goto) {
+    pub fn set_goto(&mut self, state_index: StateIndex, nonterminal: &str, val: Goto)
+        //@[ C07 C17 Table::set_goto: exactly one cell changes
+        requires old(self).wf(), state_index.0 < old(self).nstates(), nt_index(names_view(old(self).nonterminals@), nonterminal@, 0) is Some,
+        ensures
+            final(self).gotos@ == old(self).gotos@.update(old(self).goto_pos(state_index, nonterminal@), val),
+            0 <= old(self).goto_pos(state_index, nonterminal@) < old(self).gotos@.len(),
+            final(self).start == old(self).start, final(self).terminals == old(self).terminals,
+            final(self).nonterminals == old(self).nonterminals, final(self).actions == old(self).actions,
+        //@]
+    {
         let i = self.goto_index(state_index, nonterminal);
         self.gotos[i] = val;
     }
@@ -103,17 +234,25 @@ impl Table {
     /// ## Panics
     /// 1. Panics if the nonterminal is not in the table.
     /// 2. Panics if the state is too large.
-    //@[ T: uses Iterator::position (outside the supported subset)
-    #[verifier::external_body]
-    //@]
-    fn goto_index(&self, /*@{ T11_goto_index*//*@- StateIndex(state_index): StateIndex *//*@|*/__vx_p0: StateIndex/*@}*/, nonterminal: &str) -> usize {
+    fn goto_index(&self, /*@{ T11_goto_index*//*@- StateIndex(state_index): StateIndex *//*@|*/__vx_p0: StateIndex/*@}*/, nonterminal: &str) -> /*@[*/(r: /*@]*/usize/*@[*/)/*@]*/
+        //@[ C07 C17 Table::goto_index: row-major cell position; the nonterminal is known and the state in range (no panic, no overflow)
+        requires self.wf(), __vx_p0.0 < self.nstates(), nt_index(names_view(self.nonterminals@), nonterminal@, 0) is Some,
+        ensures r == self.goto_pos(__vx_p0, nonterminal@), r < self.gotos@.len(),
+        //@]
+    {
         //@[ T11
         let StateIndex(state_index) = __vx_p0;
+        proof {
+            lemma_nt_index_bounds(names_view(self.nonterminals@), nonterminal@, 0);
+            lemma_cell_in_range(state_index as int, self.nstates(), self.nonterminals@.len() as int, nt_index(names_view(self.nonterminals@), nonterminal@, 0)->Some_0);
+            vstd::std_specs::vec::axiom_spec_len(&self.gotos);
+            assert(0 <= state_index * self.nonterminals@.len()) by (nonlinear_arith) requires state_index >= 0, self.nonterminals@.len() >= 0;
+        }
         //@]
-        let nonterminal_index = self
+        let nonterminal_index = /*@{ T13_nonterminal_position*//*@- self
             .nonterminals
             .iter()
-            .position(|t| t == nonterminal)
+            .position(|t| t == nonterminal) *//*@|*/self.__vx_nonterminal_position(nonterminal)/*@}*/
             .expect("Nonterminal not found in table");
 
         if state_index >= self.state_count() {
